@@ -453,6 +453,35 @@ pub fn run(ctx: &Ctx, replay: Option<&J>) -> i32 {
         id_pairs.sort();
         id_pairs.dedup();
     }
+    // the same spelling passed twice *as one value* (a variable used for both unit arguments): every
+    // probe of section 1, known, unknown or ambiguous
+    {
+        let q = |s: &str| if s.contains('"') { format!("'{}'", s) } else { format!("\"{}\"", s) };
+        let plain: Vec<&String> = probes.iter().filter(|p| !(p.contains('"') && p.contains('\'')) && !p.contains('\n')).collect();
+        par_for(plain.len(), |k| {
+            let p = plain[k];
+            let src = format!("u = {}\n[convert(2.5, u, u), ((a) => convert(2.5, a, a))(u)]", q(p));
+            let got = eval_fresh(&src);
+            let want = units::convert(2.5, p, p).map(|v| format!("[{}, {}]", num_repr(v), num_repr(v)));
+            ctx.count(1);
+            ctx.outcome("builtin-same-value-twice");
+            let ok = match (&got, &want) {
+                (Outcome::Ok(g), Ok(w)) => g == w,
+                (Outcome::EvalError(_), Err(_)) => true,
+                _ => false,
+            };
+            if !ok {
+                ctx.violation(Violation {
+                    kind: "builtin-differs".into(),
+                    class: "builtin-same-value-twice".into(),
+                    input: src.replace('\n', " ; "),
+                    expected: format!("{:?}", want.map_err(|e| e.to_string())),
+                    observed: format!("{:?}", got),
+                    case: json!({"op": "convert", "x": 2.5, "from": p, "to": p}),
+                });
+            }
+        });
+    }
     ctx.set("builtin_identifier_pairs", json!(id_pairs.len()));
     par_for(id_pairs.len(), |k| {
         let (a, b) = (id_pairs[k].0.as_str(), id_pairs[k].1.as_str());
